@@ -72,8 +72,8 @@ func (e *schedEngine) Plan(seed uint64, tier string) int {
 	return 8000
 }
 
-var scImageOps = []string{"Hash", "Bytes", "Open", "Signatures", "Verify", "VerifyOther"}
-var scDBOps = []string{"Bytes", "Marshal", "BytesExists", "BytesExistsMiss", "SigDataExists", "Exists"}
+var scImageOps = []string{"Hash", "HashSHA1", "HashSHA512", "Bytes", "Open", "Signatures", "Verify", "VerifyOther"}
+var scDBOps = []string{"Bytes", "Marshal", "BytesExists", "BytesExistsMiss", "BytesExistsPEM", "SigDataExists", "Exists"}
 var scUpdateOps = []string{"Marshal", "Bytes", "DescMarshal", "DescVerify"}
 var scPkcs7Ops = []string{"Verify", "VerifyOther", "HasCertificate"}
 var scAuthcodeOps = []string{"Verify", "VerifyOther"}
@@ -108,7 +108,10 @@ func (e *schedEngine) Gen(seed uint64, tier string, run int) *Trace {
 			c.Signers = append(c.Signers, Pick(r, []int{0, 1, 0, 1, 4, 6}))
 		}
 		kinds = scImageOps
-	case "db", "dbdecoded":
+	case "db":
+		c.DB = r.Intn(5) // 3, 4: with a list that the caller assembled by hand around a PEM encoded certificate
+		kinds = scDBOps
+	case "dbdecoded":
 		c.DB = r.Intn(3)
 		kinds = scDBOps
 	case "pkcs7":
@@ -122,7 +125,8 @@ func (e *schedEngine) Gen(seed uint64, tier string, run int) *Trace {
 		c.DB = r.Intn(3)
 		kinds = scListOps
 	case "update":
-		c.Signers = []int{r.Intn(2)}
+		c.Signers = []int{Pick(r, []int{0, 1, 0, 1, 8, 12})}
+		c.DB = r.Intn(5) // payload variant
 		kinds = scUpdateOps
 	}
 	c.Clients = 1
@@ -188,6 +192,35 @@ func (e *schedEngine) Gen(seed uint64, tier string, run int) *Trace {
 type scObject struct {
 	dumpRoot any
 	do       func(op scOp) []byte
+	hmu      sync.Mutex
+	held     []scHeld
+}
+
+// scHeld is a result the caller keeps: the slice the library returned and a copy
+// taken at that moment. A read-only operation must not hand out memory that a
+// later read-only operation overwrites.
+type scHeld struct {
+	what string
+	orig []byte
+	copy []byte
+}
+
+func (o *scObject) hold(what string, b []byte) []byte {
+	o.hmu.Lock()
+	o.held = append(o.held, scHeld{what, b, append([]byte(nil), b...)})
+	o.hmu.Unlock()
+	return b
+}
+
+func (o *scObject) heldIntact() string {
+	o.hmu.Lock()
+	defer o.hmu.Unlock()
+	for k, h := range o.held {
+		if !bytes.Equal(h.orig, h.copy) {
+			return fmt.Sprintf("the result of %s (kept by the caller, %d-th kept result) changed afterwards: was %s, is now %s", h.what, k, shortHex(h.copy), shortHex(h.orig))
+		}
+	}
+	return ""
 }
 
 // scWithInput ties an object to the caller-provided bytes it was built from:
@@ -235,21 +268,27 @@ func (e *schedEngine) build(c scCfg, x *X, plane *Plane) (mk func() *scObject) {
 			if err != nil {
 				harnessf("sched: reparse: %v", err)
 			}
-			return &scObject{dumpRoot: bin, do: func(op scOp) []byte {
+			var o *scObject
+			o = &scObject{dumpRoot: bin, do: func(op scOp) []byte {
 				switch op.Op {
 				case "Hash":
-					return scResult(bin.Hash(crypto.SHA256), nil)
+					return scResult(o.hold("Hash(SHA256)", bin.Hash(crypto.SHA256)), nil)
+				case "HashSHA1":
+					return scResult(o.hold("Hash(SHA1)", bin.Hash(crypto.SHA1)), nil)
+				case "HashSHA512":
+					return scResult(o.hold("Hash(SHA512)", bin.Hash(crypto.SHA512)), nil)
 				case "Bytes":
-					return scResult(bin.Bytes(), nil)
+					return scResult(o.hold("Bytes()", bin.Bytes()), nil)
 				case "Open":
 					b, err := io.ReadAll(bin.Open())
 					return scResult(b, err)
 				case "Signatures":
 					sigs, err := bin.Signatures()
 					var b bytes.Buffer
-					for _, s := range sigs {
+					for k, s := range sigs {
 						fmt.Fprintf(&b, "%d/%x/%x:", s.Length, s.Revision, s.CertType)
 						b.Write(s.Certificate)
+						o.hold(fmt.Sprintf("Signatures()[%d].Certificate", k), s.Certificate)
 					}
 					return scResult(b.Bytes(), err)
 				case "Verify":
@@ -262,6 +301,7 @@ func (e *schedEngine) build(c scCfg, x *X, plane *Plane) (mk func() *scObject) {
 				harnessf("sched: image op %q", op.Op)
 				return nil
 			}}
+			return o
 		}
 	case "db":
 		return func() *scObject {
@@ -282,13 +322,29 @@ func (e *schedEngine) build(c scCfg, x *X, plane *Plane) (mk func() *scObject) {
 				add(1, 2, 8)
 				add(0, 0, 3)
 			}
+			if c.DB >= 3 {
+				// a list assembled by hand (struct literal + AppendList), holding the certificate in the form the caller had: PEM
+				pemData := append([]byte(nil), dbData(9+c.DB-3)...)
+				hand := &signature.SignatureList{SignatureType: dbTypes[1].G, ListSize: uint32(28 + 16 + len(pemData)), HeaderSize: 0, Size: uint32(16 + len(pemData)),
+					SignatureHeader: []byte{}, Signatures: []signature.SignatureData{{Owner: dbOwners[2], Data: pemData}}}
+				db.AppendList(hand)
+			}
 			probe := signature.NewSignatureList(dbTypes[0].G)
 			probe.AppendBytes(dbOwners[0], dbData(0))
 			probe.AppendBytes(dbOwners[1], dbData(1))
-			return &scObject{dumpRoot: db, do: func(op scOp) []byte {
+			var o *scObject
+			o = &scObject{dumpRoot: db, do: func(op scOp) []byte {
 				switch op.Op {
 				case "Bytes":
-					return scResult(db.Bytes(), nil)
+					// a database, one of its lists and one of its entries are encoded in turn: three results to keep
+					r := o.hold("db.Bytes()", db.Bytes())
+					if len(*db) > 0 {
+						o.hold("list.Bytes()", (*db)[len(*db)-1].Bytes())
+						if sg := (*db)[0].Signatures; len(sg) > 0 {
+							o.hold("entry.Bytes()", sg[0].Bytes())
+						}
+					}
+					return scResult(r, nil)
 				case "Marshal":
 					var b bytes.Buffer
 					db.Marshal(&b)
@@ -297,6 +353,10 @@ func (e *schedEngine) build(c scCfg, x *X, plane *Plane) (mk func() *scObject) {
 					return scResult([]byte(fmt.Sprint(db.BytesExists(dbTypes[1].G, dbOwners[0], dbData(6)))), nil)
 				case "BytesExistsMiss":
 					return scResult([]byte(fmt.Sprint(db.BytesExists(dbTypes[0].G, dbOwners[2], dbData(1)))), nil)
+				case "BytesExistsPEM":
+					// the hand-assembled entry, asked for in the form it was put in and in DER
+					return scResult([]byte(fmt.Sprint(db.BytesExists(dbTypes[1].G, dbOwners[2], dbData(9)), db.BytesExists(dbTypes[1].G, dbOwners[2], dbData(10)),
+						db.BytesExists(dbTypes[1].G, dbOwners[2], dbData(6)), db.BytesExists(dbTypes[1].G, dbOwners[2], dbData(7)))), nil)
 				case "SigDataExists":
 					return scResult([]byte(fmt.Sprint(db.SigDataExists(dbTypes[0].G, &signature.SignatureData{Owner: dbOwners[1], Data: dbData(1)}))), nil)
 				case "Exists":
@@ -305,6 +365,7 @@ func (e *schedEngine) build(c scCfg, x *X, plane *Plane) (mk func() *scObject) {
 				harnessf("sched: db op %q", op.Op)
 				return nil
 			}}
+			return o
 		}
 	case "dbdecoded":
 		// a database as it comes out of the decoder
@@ -336,6 +397,9 @@ func (e *schedEngine) build(c scCfg, x *X, plane *Plane) (mk func() *scObject) {
 					return scResult([]byte(fmt.Sprint(db.BytesExists(dbTypes[0].G, own, hit))), nil)
 				case "BytesExistsMiss":
 					return scResult([]byte(fmt.Sprint(db.BytesExists(dbTypes[1].G, own, hit))), nil)
+				case "BytesExistsPEM":
+					return scResult([]byte(fmt.Sprint(db.BytesExists(dbTypes[1].G, guidFromWire([]byte{1, 0, 0, 0, 0, 0, 0, 0, 0, 0, 0, 0, 0, 0, 0, 0}), Pool()[0].CertPEM),
+						db.BytesExists(dbTypes[1].G, guidFromWire([]byte{1, 0, 0, 0, 0, 0, 0, 0, 0, 0, 0, 0, 0, 0, 0, 0}), Pool()[0].CertDER))), nil)
 				case "SigDataExists":
 					return scResult([]byte(fmt.Sprint(db.SigDataExists(dbTypes[1].G, &signature.SignatureData{Owner: guidFromWire([]byte{2, 0, 0, 0, 0, 0, 0, 0, 0, 0, 0, 0, 0, 0, 0, 0}), Data: Pool()[1].CertDER}))), nil)
 				case "Exists":
@@ -452,7 +516,9 @@ func (e *schedEngine) build(c scCfg, x *X, plane *Plane) (mk func() *scObject) {
 			var upd efivar.Marshallable
 			if pv := inBubble(x.T, at.UTC(), "", func() {
 				var err error
-				desc, upd, err = signature.SignEFIVariable(efivar.Db, rawVal(refHashDB(0x31, 3)), pk.Key, pk.Cert)
+				// payloads of several sizes: a hash list, the empty value that clears a variable, a few bytes
+				payload := [][]byte{refHashDB(0x31, 3), nil, []byte("\x01\x02\x03\x04\x05"), refHashDB(0x32, 1)[:40], refHashDB(0x33, 1)}[c.DB%5]
+				desc, upd, err = signature.SignEFIVariable(efivar.Db, rawVal(payload), pk.Key, pk.Cert)
 				if err != nil {
 					harnessf("sched: SignEFIVariable: %v", err)
 				}
@@ -463,14 +529,15 @@ func (e *schedEngine) build(c scCfg, x *X, plane *Plane) (mk func() *scObject) {
 				D *signature.EFIVariableAuthentication2
 				U efivar.Marshallable
 			}
-			return &scObject{dumpRoot: &both{desc, upd}, do: func(op scOp) []byte {
+			var o *scObject
+			o = &scObject{dumpRoot: &both{desc, upd}, do: func(op scOp) []byte {
 				switch op.Op {
 				case "Marshal":
 					var b bytes.Buffer
 					upd.Marshal(&b)
 					return scOwnBuffer(&b)
 				case "Bytes":
-					return scResult(upd.Bytes(), nil)
+					return scResult(o.hold("update.Bytes()", upd.Bytes()), nil)
 				case "DescMarshal":
 					var b bytes.Buffer
 					desc.Marshal(&b)
@@ -482,6 +549,7 @@ func (e *schedEngine) build(c scCfg, x *X, plane *Plane) (mk func() *scObject) {
 				harnessf("sched: update op %q", op.Op)
 				return nil
 			}}
+			return o
 		}
 	}
 	harnessf("sched: object %q", c.Object)
@@ -538,21 +606,56 @@ func (e *schedEngine) Exec(tr *Trace, x *X) {
 	// sequential baseline on a twin object. For free-running clients it is computed AFTER the concurrent
 	// phase, so that the very first calls of the process (lazy package-level initialisation) are the concurrent ones.
 	base := map[string][]byte{}
-	baseline := func() {
-		twin := mk()
+	var kinds []scOp // one representative per operation kind, in order of first appearance
+	{
+		seen := map[string]bool{}
 		for _, op := range ops {
 			k := fmt.Sprint(op.Op, op.Key)
-			if _, ok := base[k]; !ok {
-				base[k] = guardResult(func() []byte { return twin.do(op) })
+			if !seen[k] {
+				seen[k] = true
+				kinds = append(kinds, op)
 			}
+		}
+	}
+	// every operation kind is first called on a FRESH object of its own: that is what "the same result every time" refers to
+	baseline := func() {
+		for _, op := range kinds {
+			fresh := mk()
+			base[fmt.Sprint(op.Op, op.Key)] = guardResult(func() []byte { return fresh.do(op) })
 		}
 	}
 	if c.Mode != "free" {
 		baseline()
 	}
 	obj := mk()
-	snap0 := deepDump(obj.dumpRoot)
 	x.Logf("object=%s mode=%s clients=%d ops=%d switches=%d image=%s signers=%v", c.Object, c.Mode, c.Clients, len(ops), len(sw), c.Image.String0(), c.Signers)
+	// warm-up: each kind once on the object under test. Whatever an implementation legitimately fills in on
+	// first use (a cache) is filled in now; from here on the object must not change any more.
+	warm := func() bool {
+		for _, op := range kinds {
+			r := guardResult(func() []byte { return obj.do(op) })
+			if want, ok := base[fmt.Sprint(op.Op, op.Key)]; ok && !bytes.Equal(r, want) {
+				x.Fail("sched.result_repeatable", -1, c.Object+"."+op.Op, "%s on an object that other read-only operations were called on before returned %s, on a fresh object %s", op.Op, shortHex(r), shortHex(want))
+				x.Viol.Sig = map[string]string{"mode": c.Mode, "object": c.Object, "op": op.Op}
+				return false
+			}
+		}
+		return true
+	}
+	if c.Mode != "free" {
+		if !warm() {
+			return
+		}
+	}
+	snap0 := deepDump(obj.dumpRoot)
+	kept := func(i int) bool {
+		if msg := obj.heldIntact(); msg != "" {
+			x.Fail("sched.result_stays_valid", i, c.Object, "%s", msg)
+			x.Viol.Sig = map[string]string{"mode": c.Mode, "object": c.Object}
+			return false
+		}
+		return true
+	}
 	results := make([][]byte, len(ops))
 	judge := func(i int) bool {
 		op := ops[i]
@@ -576,8 +679,11 @@ func (e *schedEngine) Exec(tr *Trace, x *X) {
 				return
 			}
 			if d := deepDump(obj.dumpRoot); d != snap0 {
-				x.Fail("sched.object_unmodified", i, c.Object+"."+op.Op, "the object changed: %s", dumpDiff(snap0, d))
+				x.Fail("sched.object_unmodified", i, c.Object+"."+op.Op, "the object changed after its first use: %s", dumpDiff(snap0, d))
 				x.Viol.Sig = map[string]string{"mode": c.Mode, "object": c.Object, "op": op.Op}
+				return
+			}
+			if !kept(i) {
 				return
 			}
 			reps[op.Op]++
@@ -622,8 +728,11 @@ func (e *schedEngine) Exec(tr *Trace, x *X) {
 			}
 		}
 		if d := deepDump(obj.dumpRoot); d != snap0 {
-			x.Fail("sched.object_unmodified", len(ops)-1, c.Object, "the object changed: %s", dumpDiff(snap0, d))
+			x.Fail("sched.object_unmodified", len(ops)-1, c.Object, "the object changed after its first use: %s", dumpDiff(snap0, d))
 			x.Viol.Sig = map[string]string{"mode": c.Mode, "object": c.Object}
+			return
+		}
+		if !kept(len(ops) - 1) {
 			return
 		}
 		x.Nontriv = c.Clients >= 2 && len(s.Switches) >= 1
@@ -656,9 +765,20 @@ func (e *schedEngine) Exec(tr *Trace, x *X) {
 				return
 			}
 		}
-		if d := deepDump(obj.dumpRoot); d != snap0 {
-			x.Fail("sched.object_unmodified", len(ops)-1, c.Object, "the object changed: %s", dumpDiff(snap0, d))
+		// after the concurrent phase the object is in its used state: one more sequential round must leave it as it is
+		if !warm() {
+			return
+		}
+		snapA := deepDump(obj.dumpRoot)
+		if !warm() {
+			return
+		}
+		if d := deepDump(obj.dumpRoot); d != snapA {
+			x.Fail("sched.object_unmodified", len(ops)-1, c.Object, "the object changed after its first use: %s", dumpDiff(snapA, d))
 			x.Viol.Sig = map[string]string{"mode": c.Mode, "object": c.Object}
+			return
+		}
+		if !kept(len(ops) - 1) {
 			return
 		}
 		x.Nontriv = c.Clients >= 2
